@@ -424,6 +424,11 @@ func (cc *cleanChecker) compute(v ssa.Value) bool {
 		case "path/filepath.Clean", "path/filepath.Base", "path/filepath.Dir", "path/filepath.Join", "path.Clean", "path.Join", "path.Base", "path.Dir":
 			return true
 		}
+		return cc.helperResultClean(x, 0)
+	case *ssa.Extract:
+		if c, ok := x.Tuple.(*ssa.Call); ok {
+			return cc.helperResultClean(c, x.Index)
+		}
 		return false
 	case *ssa.Phi:
 		for _, e := range x.Edges {
@@ -521,6 +526,32 @@ func (cc *cleanChecker) compute(v ssa.Value) bool {
 		}
 	}
 	return false
+}
+
+// helperResultClean: result #idx of a direct call to a module helper is clean
+// when every return of the helper yields a clean value there (a constant —
+// the "" of an error return included — counts as clean).
+func (cc *cleanChecker) helperResultClean(c *ssa.Call, idx int) bool {
+	h := c.Common().StaticCallee()
+	if h == nil || h.Blocks == nil || !isModFunc(h) {
+		return false
+	}
+	n := 0
+	for _, b := range h.Blocks {
+		ret, ok := lastInstr(b).(*ssa.Return)
+		if !ok {
+			continue
+		}
+		rs := retResults(ret)
+		if idx >= len(rs) {
+			return false
+		}
+		n++
+		if !cc.ok(rs[idx]) {
+			return false
+		}
+	}
+	return n > 0
 }
 
 func checkCleanNames(p *Prog, r *Report, g *ModGraph) {
